@@ -6,7 +6,7 @@ TECH = "deterministic simulation with fault injection: "
 checks = {
  "C01": ("exploration", "§3 C01",
    "Seeded search over protocol-respecting host sessions on the real interpreter: each run is one PRNG-scheduled session (lines, ticks, replies, breaks, NEW+replace, seeds, flag toggles; hostile texts incl. boundary numerals and nesting up to 100000 deep); a monitor after every call checks: returned (no unwind, no abort, no wedge), error => idle + caret renders, canary line still accepted, transient state only after NEW. A clean batch is evidence, not proof.",
-   "Trusted: the scheduler issues only protocol-legal calls; worker stack 8 MiB (Linux main-thread default); 60 s watchdog defines 'wedge'. Aborts are attributed through a per-worker in-flight file and re-confirmed in a fresh process.",
+   "Trusted: the scheduler issues only protocol-legal calls; worker stack 8 MiB (Linux main-thread default); 45 s watchdog defines 'wedge'. Aborts are attributed through a per-worker in-flight file and re-confirmed in a fresh process.",
    TECH + "seeded host-schedule search, per-call invariant monitor, process isolation for aborts, ddmin replay"),
  "C03": ("exploration", "§3 C03",
    "Lock-step refinement of the real interpreter against an independent reference interpreter (sim/src/model.rs, executes the generator's AST; shares no tokenizer/parser with abasic) over grammar-generated programs incl. intended runtime failures; half of the runs under faults that must be transparent (break+CONT at PRNG-chosen turn boundaries, tracing/warnings on). Output records, states, error kind and line must agree segment by segment.",
